@@ -731,11 +731,12 @@ def generate(seed, tier):
                 fault = {"kind": "stack_exhaustion", "extra": r.randint(3, 40)}
             elif fault_mode == "async":
                 fault = {"kind": "async_interrupt", "nth": r.randint(1, 400)}
+        knobs = {}
         if fam == "state" and r.random() < 0.4:
-            ops.append(["call", ins, et, args, kwargs, fault,
-                        {"mode": r.choice(["", "_a", "_b"])}])
-        else:
-            ops.append(["call", ins, et, args, kwargs, fault])
+            knobs["mode"] = r.choice(["", "_a", "_b"])
+        if fault is None and r.random() < 0.08:
+            knobs["thread"] = True
+        ops.append(["call", ins, et, args, kwargs, fault] + ([knobs] if knobs else []))
     if wide_name is not None:
         ins = r.choice([i for i in insts if not i["family"].startswith(("entry", "csemix_diff"))]
                        or insts)
@@ -1206,7 +1207,26 @@ def execute(scenario, open_sigs):
                     return local
                 sys.settrace(tracer)
             try:
-                got = call(st.obj, e, a, kw)
+                if knobs.get("thread") and fkind is None:
+                    # the same long-lived instance, used from another caller thread (one
+                    # caller at a time)
+                    import threading
+                    box = []
+
+                    def in_thread():
+                        if prof_was:
+                            sys.setprofile(obs._prof)
+                        try:
+                            box.append(call(st.obj, e, a, kw))
+                        finally:
+                            sys.setprofile(None)
+                    th = threading.Thread(target=in_thread)
+                    th.start()
+                    th.join()
+                    got = box[0]
+                    probe("calls_from_another_thread")
+                else:
+                    got = call(st.obj, e, a, kw)
             finally:
                 if fkind == "async_interrupt":
                     sys.settrace(None)
